@@ -522,6 +522,15 @@ def generate(ctx, shard=0, nshards=1):
                 for name in ('lat_within_inclination', 'radius_window', 'kepler_agreement', 'direct_sum', 'fk5_size',
                              'aberration_size'):
                     check(ctx, name, [p, j])
+        # around the origin of the series' time variable (J2000.0): seconds, milliseconds and ulps on both sides;
+        # t -> 0 is where a power of t underflows any absolute threshold
+        for p in PLANETS:
+            for off in [k_ / 86400.0 for k_ in (1, 2, 3, 4, 5, 8, 30, 600)] + [1e-9, 1e-7, 1e-6, 1e-5, 1e-4, 1e-3, 0.1]:
+                for sgn in (-1.0, 1.0):
+                    j = norm_jde(2451545.0 + sgn * off)
+                    tie_epoch(ctx, p, j, 'near_j2000')
+                    check(ctx, 'direct_sum', [p, j], 'direct_sum/near_j2000')
+                    check(ctx, 'one_second_step', [p, j], 'one_second_step/near_j2000')
     hot = [norm_jde(v) for v in ctx.hot['floats'] if lo <= v <= hi]
     for pi, planet in enumerate(PLANETS):
         # --- dense random epochs over -2000..4000 (more weight at the ends, where t is large)
